@@ -1,7 +1,7 @@
 /* C02/C03/C15 harness: executes a build script through the REAL flatcc runtime builder API with a recording
  * emitter and prints every emitter call, every returned reference, the finished bytes and the reported alignment.
  *
- * One request line:   build <op> <op> ...
+ * One request line:   build <op> <op> ...      (buildm: the same with an allocator that moves every block it grows)
  * One reply line:     OK refs=<r,..> align=<a> start=<s> end=<e> bytes=<hex> emits=<off>:<hex>;...   |  FAIL <op index> <op>
  *
  * Ops (fields separated by ':'; <r> = index of an earlier result; results are numbered in completion order):
@@ -70,6 +70,30 @@ static int rec_emit(void *ctx, const flatcc_iovec_t *iov, int iov_count, flatbuf
         bytes_append(&R->back, tmp.p, tmp.n); R->end = offset + (long)tmp.n;
     }
     free(tmp.p);
+    return 0;
+}
+
+/* "buildm": an allocator that MOVES every block it grows (new block, copy, free the old one: a write through a pointer taken before
+ * the growth hits freed memory - ASan reports it); sizes follow flatcc_builder_default_alloc */
+static int moving_alloc(void *ctx, flatcc_iovec_t *b, size_t request, int zero_fill, int hint)
+{
+    void *p; size_t n;
+    (void)ctx;
+    if (request == 0) { if (b->iov_base) { free(b->iov_base); b->iov_base = 0; b->iov_len = 0; } return 0; }
+    switch (hint) {
+    case flatcc_builder_alloc_ds: n = 256; break;
+    case flatcc_builder_alloc_ht: n = request; break;
+    case flatcc_builder_alloc_fs: n = sizeof(__flatcc_builder_frame_t) * 8; break;
+    case flatcc_builder_alloc_us: n = 64; break;
+    default: n = 32; break;
+    }
+    while (n < request) n *= 2;
+    if (request <= b->iov_len && b->iov_len / 2 >= n) return 0;
+    if (!(p = malloc(n))) return -1;
+    if (b->iov_base) memcpy(p, b->iov_base, b->iov_len < n ? b->iov_len : n);
+    if (zero_fill && b->iov_len < n) memset((uint8_t *)p + b->iov_len, 0, n - b->iov_len);
+    free(b->iov_base);
+    b->iov_base = p; b->iov_len = n;
     return 0;
 }
 
@@ -220,10 +244,10 @@ int main(void)
         flatcc_builder_t builder, *B = &builder;
         rec_t R;
         char *failop = 0;
-        if (nt < 1 || strcmp(tok[0], "build")) { printf("BAD\n"); fflush(stdout); continue; }
+        if (nt < 1 || (strcmp(tok[0], "build") && strcmp(tok[0], "buildm"))) { printf("BAD\n"); fflush(stdout); continue; }
         memset(&R, 0, sizeof(R));
         nregs = 0;
-        flatcc_builder_custom_init(B, rec_emit, &R, 0, 0);
+        flatcc_builder_custom_init(B, rec_emit, &R, tok[0][5] == 'm' ? moving_alloc : 0, 0);
         for (i = 1; i < nt; ++i) {
             failop = strdup(tok[i]);
             if (run_op(B, tok[i])) { failed = i - 1; break; }
